@@ -417,10 +417,57 @@ def table_rules(run, db):
         bad = [(k, dom.explicit(fam, pv, k).key()) for k in range(0, 4) if not (dom.explicit(fam, pv, k) == x ** k)]
         run.check(not bad, 'C08.table', f.qual, ast.unparse(c), '%s(k, %s, x) == x**k for k = 0..3 (and by its recurrence for all k)' % (fam, a),
                   'the monomial table %s holds %s instead of x**%d: every term with a zero exponent is scaled' % (ast.unparse(c), bad[0][1] if bad else '', bad[0][0] if bad else 0), f.loc(c))
-    # lookup: term = x_seq[m] * y_seq[n] for (m, n) in the request order
-    src = ast.unparse(f.node).replace(' ', '')
-    ok = 'form,ninmns:' in src and 'xterm=x_seq[m]' in src and 'yterm=y_seq[n]' in src and 'out.append(xterm*yterm)' in src
-    run.check(ok, 'C08.table', f.qual, 'lookup', 'term (m, n) is x_table[m] * y_table[n], appended in request order', 'xy_seq lookup/ordering changed', f.loc())
+    # lookup: the term stored for request (m, n) is x_table[m] * y_table[n], in request order, with tables that hold the
+    # orders 0..max contiguously (so list index == order).  Decided by interpreting the function, not by its spelling.
+    from . import seqtables as ST
+    from ..core.interp import Frame, Value
+    from .common import snapshot_loops, loop_as_function
+    fams = sorted({c.func.id for c in calls})
+    it2, dom2 = ST.mk(db, atoms=tuple(x_[:-4] for x_ in fams), seqs=tuple(fams))
+    R2 = dom2.R
+    orig_method, orig_ext = dom2.method, dom2.call_ext
+
+    def method(v, name, args, kwargs, node):
+        if name == 'max' and isinstance(kwargs.get('axis'), Const) and kwargs['axis'].v == 0 and dom2.rat(v) is not None and dom2.rat(v) == Rat(R2.atom('mns')):
+            return Tup([dom2.sym('colmax0'), dom2.sym('colmax1')])
+        return orig_method(v, name, args, kwargs, node)
+
+    def call_ext(dotted, args, kwargs, node):
+        if dotted in ('numpy.asarray', 'numpy.array') and args:
+            return args[0]
+        return orig_ext(dotted, args, kwargs, node)
+    dom2.method, dom2.call_ext = method, call_ext
+    snaps = snapshot_loops(it2, dom2)
+    it2.run(f, kwargs=lambda: {'mns': dom2.sym('mns'), 'x': dom2.sym('x'), 'y': dom2.sym('y'), 'cartesian_grid': Const(False)})
+    dom2.loop = lambda node, frame: False
+    loops = [n for n in f.node.body if isinstance(n, ast.For)]
+    sn = [s_ for s_ in snaps if loops and s_.node is loops[-1]]
+    if len(loops) != 1 or not sn:
+        raise AnalysisError('xy_seq: the request loop was not reached')
+    L = loops[0]
+    tg = [e.id for e in L.target.elts] if isinstance(L.target, ast.Tuple) and all(isinstance(e, ast.Name) for e in L.target.elts) else []
+    rets = [n for n in walk_no_nested(f.node) if isinstance(n, ast.Return) and isinstance(n.value, ast.Name)]
+    if len(tg) != 2 or len(rets) != 1 or not (isinstance(L.iter, ast.Name) and L.iter.id == 'mns'):
+        raise AnalysisError('xy_seq: the request loop is not `for <m>, <n> in mns` feeding the returned list')
+    outn = rets[0].value.id
+    env = sn[0].env
+    laws = {k: v for k, v in env.items() if isinstance(v, ST.Law)}
+    stepf, params = loop_as_function(f, L, [outn])
+    lst = Tup([], 'list')
+    kw = {p_: env.get(p_, dom2.sym(p_)) for p_ in params}
+    kw.update({tg[0]: dom2.sym('m'), tg[1]: dom2.sym('n'), outn: lst})
+    rs = [q for q in it2.run(stepf, kwargs=lambda: dict(kw)) if q.outcome == 'return']
+    fam = fams[0][:-4] if len(fams) == 1 else None
+    A2 = lambda nme: Rat(R2.atom(nme))
+    want = Rat(R2.func(fam, [A2('m'), Rat(R2.const(0)), A2('x')])) * Rat(R2.func(fam, [A2('n'), Rat(R2.const(0)), A2('y')])) if fam else None
+    got = dom2.rat(lst.items[0]) if len(lst.items) == 1 else None
+    ok = len(rs) == 1 and want is not None and got is not None and got == want
+    run.check(ok, 'C08.table', f.qual, 'lookup', 'term (m, n) is x_table[m] * y_table[n], appended once per request in request order',
+              'xy_seq appends %s for the request (m, n), expected %s' % ([dom2.rat(v).key() if dom2.rat(v) is not None else repr(v) for v in lst.items], want.key() if want is not None else '?'), f.loc(L))
+    labels = sorted(v.label for v in laws.values() if ' over ' in v.label)
+    okl = labels == sorted('%s over arange(0, %s)' % (fams[0], (A2(c_) + 1).key()) for c_ in ('colmax0', 'colmax1')) if fam else False
+    run.check(okl, 'C08.table', f.qual, 'table orders', 'the x / y tables hold the orders 0..max(m) / 0..max(n) contiguously, so list index == order',
+              'the monomial tables are built over %s' % labels, f.loc())
     fxy = db.func(P + 'xy.xy')
     rets = [n for n in walk_no_nested(fxy.node) if isinstance(n, ast.Return)]
     run.check(len(rets) == 1 and ast.unparse(rets[0].value).replace(' ', '') == 'x**m*y**n', 'C08.table', fxy.qual, 'definition', 'xy == x**m y**n', 'xy is not x**m * y**n', fxy.loc())
@@ -434,7 +481,11 @@ def shared_rules(run, db):
         sites = set()
         bad = shared_entry_mutations(f, sites)
         if not sites:
-            raise AnalysisError('%s: no table lookups inside the request loop' % qual)
+            # nothing binds a table entry to a name: there is no alias to write through; the tables must still be read
+            subs = [n for n in ast.walk(f.node) if isinstance(n, ast.Subscript) and isinstance(n.ctx, ast.Load)]
+            if not subs:
+                raise AnalysisError('%s: no table lookups inside the request loop' % qual)
+            run.ok('C08.shared', f.qual, 'no table entry is bound to a local name (lookups are used in place)')
         badsites = {r for _, _, r in bad}
         for ln, text in sorted(sites):
             if text not in badsites:
